@@ -77,6 +77,38 @@ def main(tier='quick'):
             n_nontrivial += 1
         traces.append(tr)
         metas.append(meta)
+    # the SAME message object transmitted again after its data set was removed / attached or a field was changed in place:
+    # every transmission must reproduce the command set and data set the object has at that time
+    for i in range(40 if tier == 'quick' else 600):
+        cls = [D.dm.CStoreRQMessage, D.dm.CFindRSPMessage, D.dm.CGetRSPMessage, D.dm.NEventReportRQMessage][i % 4]
+        msg = D.fill(cls(), rng)
+        m = rng.choice([30, 64, 16384])
+        for step in range(3):
+            kind = ('with', 'without', 'field', 'with')[(i + step) % 4]
+            data = None
+            if kind == 'with':
+                data = bytes(rng.getrandbits(8) for _ in range(rng.choice([2, 40, 200])))
+            elif kind == 'without':
+                msg.data_set = None
+            else:
+                # a field edited directly on the command set, same encoded length (what an application may do)
+                if hasattr(msg.command_set, 'Status'):
+                    msg.command_set.Status = (int(msg.command_set.Status or 0) + 1) % 65536
+                elif hasattr(msg.command_set, 'MessageID'):
+                    msg.command_set.MessageID = (int(msg.command_set.MessageID or 0) + 1) % 65536
+            had = bool(msg.data_set) or bool(data)
+            tr, cmd, dat, problems = D.send_trace(msg, 1, m, data, False)
+            if not data and had and tr is not None and kind == 'field':
+                problems = [p_ for p_ in problems if not p_.startswith('concatenated data fragments')]     # data set kept from before
+            meta = {'class': cls.__name__, 'ctx': 1, 'max': m, 'data_len': len(data or b''), 'file': False, 'resend_step': step, 'change': kind}
+            if tr is None:
+                v.report({'site': 'dimsemessages.encode', 'clause': 'raised', 'max_class': 'resend'}, 'Association.send raised for %r: %s' % (meta, problems[0]), replay=meta)
+                break
+            for pr in problems:
+                v.report({'site': 'dimsemessages.encode', 'clause': pr.split(' ')[0] + ' ' + pr.split(' ')[1]}, '%s for %r' % (pr, meta), replay=meta)
+            if kind != 'field' or not had:
+                traces.append(tr)
+                metas.append(meta)
     # the maximum "in force" is the outcome of a negotiation: real requester / acceptor, every pair of a small grid
     from . import neglib as N, check_c10
     for own in (0, 7, 128, 16384, 65536):
